@@ -120,6 +120,26 @@ void explore19(Options const& o, std::vector<Shim*> const& shims, std::vector<Sh
       { i64 e = s->fm_early(i, 0), n = s->fm_early(i, 1);
         if( e != n ) rec.viol(c_early, ob | static_cast<u64>(i), [&]{ return ex1(s, "compiled table function called from a static initialiser of a translation unit linked before fixed_math.cc", "probe #" + std::to_string(i), {{"probe",to_s(i)}}, to_s(n) + " (value when called later)", to_s(e), "early", {to_s(i)}); }); }
     rec.add_states(static_cast<u64>(s->fm_early_count()), 2 * static_cast<u64>(s->fm_early_count()), static_cast<u64>(s->fm_early_count()));
+    // the angle carried by each integral type (values that are representable in int32_t, so that the meaning of d is not in question)
+    {
+    int c_t = rec.cls("C19.angle_aprox_with_typed_argument_wrong");
+    LocalViol lv(rec); u64 n = 0;
+    for( int t : INT_TYPES ) for( int cosine = 0; cosine < 2; ++cosine )
+      {
+      std::vector<i64> ds;
+      for( i64 d = -1100; d <= 1100; ++d ) ds.push_back(d);
+      for( i64 d : { 32767ll, -32768ll, 65535ll, 65446ll, 2147483647ll, -2147483648ll, 1ll << 20, -(1ll << 20) } ) ds.push_back(d);
+      for( i64 d : ds )
+        {
+        if( static_cast<i128>(d) < t_min(t) || static_cast<i128>(d) > t_max(t) ) continue;
+        i64 g = 0; int sg = guarded([&]{ g = s->fm_angle_aprox_typed(cosine, t, static_cast<u64>(d) & t_mask(t)); }); ++n;
+        Interval iv = c.deg[cosine][residue360(static_cast<int32_t>(d))];
+        if( sg || g < iv.lo || g > iv.hi ) lv.hit(c_t, ob | (0xdull << 52) | (static_cast<u64>(t) << 40) | (static_cast<u64>(cosine) << 36) | static_cast<u64>(d + (1ll << 31)), [=]{ return ex1(s, cosine ? "cos_angle_aprox" : "sin_angle_aprox", std::string("argument of type ") + TN[t], {{"d",to_s(d)}},
+             "raw in [" + to_s(iv.lo) + "," + to_s(iv.hi) + "]", sg ? "killed by signal " + std::to_string(sg) : to_s(g), "anglet", {to_s(cosine), to_s(t), to_s(d)}); });
+        }
+      }
+    rec.add_states(n, n, n); rec.count("typed_angle_states", n);
+    }
     // the angle functions called with LITERAL angles (the optimiser knows the argument: __builtin_constant_p fast paths, folding)
     {
     int c_k = rec.cls("C19.angle_aprox_with_literal_argument_wrong");
@@ -219,7 +239,7 @@ void explore19(Options const& o, std::vector<Shim*> const& shims, std::vector<Sh
     i64 hi = big ? sq_hi : sq_hi_small;
     sweep_un_range(s, U_SQRT_APROX, 0, hi - 1, o.threads, rec, ob | (2ull << 52), [&](i64 x, i64 got, u64 ord, LocalViol& lv) { c.sqrt_aprox(s, x, got, ord, lv); }, 1 << 16);
     sweep_un_range(s, U_SQRT_APROX, -(1 << 16), -1, o.threads, rec, ob | (3ull << 52), [&](i64 x, i64 got, u64 ord, LocalViol& lv) { c.sqrt_aprox(s, x, got, ord, lv); });
-    std::vector<i64> sx; for( i64 x : S_set(8,4,true) ) if( x < (1ll << 37) ) sx.push_back(x);
+    std::vector<i64> sx; for( i64 x : merge_sets(merge_sets(S_set(8,4,true), S2_set(th ? 3 : 2)), D_set(th ? 2 : 1)) ) if( x < (1ll << 37) ) sx.push_back(x);      // negatives of every shape: NaN below 0
     sweep_un_set(s, U_SQRT_APROX, sx, o.threads, rec, ob | (4ull << 52), [&](i64 x, i64 got, u64 ord, LocalViol& lv) { c.sqrt_aprox(s, x, got, ord, lv); });
     }
     // (d) atan_index_aprox
@@ -254,6 +274,11 @@ void replay19(Options const& o, Shim* s, Recorder& rec)
       rec.viol(c.c_index, 0, [&]{ Example e; e.entry = cosine ? "cos_angle_aprox" : "sin_angle_aprox"; e.cfg = o.rcfg; e.inputs = {{"d",to_s(a)}}; e.expected = "index " + to_s(residue360(a)); e.got = "index " + to_s(idx); e.rcase = o.rcase; e.rin = o.rin; return e; });
     return;
     }
+  if( o.rcase == "anglet" )
+    { int cosine = static_cast<int>(parse_i64(o.rin.at(0))), t = static_cast<int>(parse_i64(o.rin.at(1))); i64 dd = parse_i64(o.rin.at(2)); i64 g = 0;
+      int sg = guarded([&]{ g = s->fm_angle_aprox_typed(cosine, t, static_cast<u64>(dd) & t_mask(t)); }); Interval iv = c.deg[cosine][residue360(static_cast<int32_t>(dd))];
+      if( sg || g < iv.lo || g > iv.hi ) rec.viol(rec.cls("C19.angle_aprox_with_typed_argument_wrong"), 0, [&]{ return ex1(s, cosine ? "cos_angle_aprox" : "sin_angle_aprox", TN[t], {{"d",to_s(dd)}}, "[" + to_s(iv.lo) + "," + to_s(iv.hi) + "]", sg ? "signal" : to_s(g), o.rcase, o.rin); });
+      rec.add_states(1,1,1); return; }
   if( o.rcase == "anglek" )
     { int cosine = static_cast<int>(parse_i64(o.rin.at(0))), i = static_cast<int>(parse_i64(o.rin.at(1))); int32_t dd = s->fm_angle_constarg_value(i); i64 g = 0;
       int sg = guarded([&]{ g = s->fm_angle_constarg(cosine, i); }); Interval iv = c.deg[cosine][residue360(dd)];
@@ -335,6 +360,26 @@ void explore20(Options const& o, std::vector<Shim*> const& shims, std::vector<Sh
     Shim* s = shims[ci];
     u64 ob = static_cast<u64>(ci) << 56;
     bool full32 = th || ci == 1 || ci == 6 % shims.size();
+    // FIRST, on a fresh thread (so that any lazily filled per-thread or per-process state is still empty): a call with a
+    // fractional number of degrees, then the whole-degree call of the same slot - the second result is judged as usual
+    {
+    std::thread fresh([&]{
+      LocalViol lv(rec); u64 n = 0;
+      for( int fn = 0; fn < A_COUNT; ++fn ) for( int d = -360; d <= 360; ++d )
+        {
+        i64 frac = (d % 3 == 0) ? 49152 : (d % 3 == 1 || d % 3 == -2) ? 16384 : 65535;
+        int sg = guarded([&]{ s->fm_xangle(fn, T_FIXED, static_cast<u64>(static_cast<i64>(d) * 65536 + frac)); s->fm_xangle(fn, T_F32, C20::carry(T_F32, d) + 1); });
+        (void)sg;
+        for( int t : { T_I32, T_FIXED, T_F32 } )
+          {
+          i64 g = s->fm_xangle(fn, t, C20::carry(t, d)); ++n;
+          c.xangle(s, fn, t, d, g, g, ob | (14ull << 52) | (static_cast<u64>(fn) << 40) | (static_cast<u64>(d + 360) << 8) | static_cast<u64>(t), lv);
+          }
+        }
+      rec.add_states(n, 2 * n, n); rec.count("whole_degree_calls_after_a_fractional_call_on_a_fresh_thread", n);
+      });
+    fresh.join();
+    }
     for( int t : INT_TYPES )
       {
       u64 ob2 = ob | (static_cast<u64>(t) << 52);
@@ -380,6 +425,24 @@ void explore20(Options const& o, std::vector<Shim*> const& shims, std::vector<Sh
       }
     rec.add_states(n, n, 2 * n);
     rec.count("xangle_states", n);
+    }
+    // the same calls from 8 threads at once, every result judged by the oracle: functions that are pure by contract must not
+    // interfere with each other (a shared memo that is neither thread-local nor atomic). Free-running: a detection here depends
+    // on the interleaving, a silent run proves nothing beyond the interleavings that occurred; no alarm is possible on pure code.
+    {
+    std::atomic<u64> nconc{0};
+    std::vector<std::thread> th8;
+    for( int tid = 0; tid < 8; ++tid ) th8.emplace_back([&, tid]{
+      LocalViol lv(rec); u64 n = 0;
+      for( int round = 0; round < (th ? 40 : 12); ++round ) for( int fn = 0; fn < A_COUNT; ++fn ) for( int k = 0; k <= 720; ++k )
+        {
+        int d = ((k * 7 + tid * 91 + round * 13) % 721) - 360; int t = (k + tid) % 2 ? T_I32 : T_FIXED;
+        i64 g = s->fm_xangle(fn, t, C20::carry(t, d)); ++n;
+        c.xangle(s, fn, t, d, g, g, ob | (13ull << 52) | (static_cast<u64>(fn) << 40) | (static_cast<u64>(d + 360) << 8) | static_cast<u64>(t), lv);
+        }
+      nconc += n; });
+    for( auto& t : th8 ) t.join();
+    rec.add_states(nconc.load(), nconc.load(), nconc.load()); rec.count("calls_made_concurrently_from_8_threads", nconc.load());
     }
     }
   rec.sample("angle_to_radians(uint8_t 200) = " + to_s(shims[0]->fm_angle_to_radians(T_U8, 200)) + " (accepted [" + to_s(c.rad[200].lo) + "," + to_s(c.rad[200].hi) + "]); angle_to_radians(int16_t 361) = " + to_s(shims[0]->fm_angle_to_radians(T_I16, 361)));
